@@ -76,6 +76,20 @@ Theorem C14_taylor_partial :
 Proof. intros W P n. split; [apply taylor_coeff|apply sympy_to_series_spec]. Qed.
 Print Assumptions C14_taylor_partial.
 
+(* An explicit [symbols] list of a sympy Matrix / Expr input is used in the USER'S order, whatever
+   the names: index i of an order tuple counts the i-th symbol of the list (the name-sorted order
+   of C14_symbols_sorted concerns monomial-key dicts only).  Element n is the coefficient of
+   prod_i given_i ^ n_i times that monomial. *)
+Theorem C14_explicit_symbols :
+  forall (W : Vals) (given free_order : list nat) (Q : npoly W) n,
+  given <> [] -> NoDup given ->
+  resolve_symbols given free_order = given /\
+  sympy_named_series W given free_order Q n =
+    (if vzerob W (Q (powers_of given n)) then None else Some (EV n (Q (powers_of given n)))) /\
+  forall i, i < length given -> powers_of given n (nth i given 0) = nth i n 0.
+Proof. exact explicit_symbols_preserved. Qed.
+Print Assumptions C14_explicit_symbols.
+
 (* _unpack_blocks: element (i, j, n) is grid_n[i][j]; absent orders stay absent *)
 Theorem C14_blocks :
   forall (W : Vals) (s : order -> option (grid W)) i j n,
@@ -131,6 +145,15 @@ Example C14_taylor_ex :
   let P : poly ZVals := fun e => if order_eqb e [0; 0] then 3%Z else if order_eqb e [1; 2] then 5%Z
                                  else if order_eqb e [2; 0] then 7%Z else 0%Z in
   taylor ZVals P [1; 2] = 5%Z /\ taylor ZVals P [2; 0] = 7%Z /\ taylor ZVals P [1; 1] = 0%Z.
+Proof. vm_compute. auto. Qed.
+
+(* 3 + 5 x y^2 with symbols = [y; x] (ranks: x = 0, y = 1): index (2, 1) is y^2 x *)
+Example C14_explicit_symbols_ex :
+  let Q : npoly ZVals := fun pw => if (pw 0 =? 1) && (pw 1 =? 2) then 5%Z
+                                   else if (pw 0 =? 0) && (pw 1 =? 0) then 3%Z else 0%Z in
+  sympy_named_series ZVals [1; 0] [0; 1] Q [2; 1] = Some (@EV ZVals [2; 1] 5%Z) /\
+  sympy_named_series ZVals [1; 0] [0; 1] Q [1; 2] = None /\
+  sympy_named_series ZVals [] [0; 1] Q [1; 2] = Some (@EV ZVals [1; 2] 5%Z).
 Proof. vm_compute. auto. Qed.
 
 Example C14_formats_ex :
